@@ -269,6 +269,15 @@ func NewGuard(base int) *Guard {
 	return &Guard{Base: base, MaxCalls: 300000, MaxList: 150, MaxEvents: 400000, active: map[[2]int]int{}, MaxSlack: -1 << 30}
 }
 
+// Reset prepares the guard for the next parse on the SAME built grammar (a parser graph is normally
+// built once and used for many inputs; state it might keep between parses must not matter)
+func (gd *Guard) Reset(base int) {
+	gd.Base = base
+	gd.Events, gd.MaxDepth, gd.AtBound, gd.Curtailed, gd.Requests, gd.Executed, gd.NoExec = 0, 0, 0, 0, 0, 0, 0
+	gd.MaxSlack = -1 << 30
+	gd.active = map[[2]int]int{}
+}
+
 // Tick counts one probe event and enforces the logical budget
 func (gd *Guard) Tick(ctx *parsley.Context) {
 	gd.Events++
